@@ -19,6 +19,7 @@ import FontVerif.Drv.C17Outline
 import FontVerif.Drv.C17Post
 import FontVerif.Drv.C17Colr
 import FontVerif.Drv.C17Layout
+import FontVerif.Drv.C17ColrPal
 namespace FontVerif.Drv.C17
 open FontVerif FontVerif.Subset
 
@@ -133,6 +134,9 @@ def handle (cmd : String) (args : List String) : Option String :=
             | none =>
               match C17Colr.handle cmd args with
               | some r => some r
-              | none => C17Layout.handle cmd args
+              | none =>
+                match C17Layout.handle cmd args with
+                | some r => some r
+                | none => C17ColrPal.handle cmd args
 
 end FontVerif.Drv.C17
